@@ -325,7 +325,7 @@ func (H) Execute(prop string, plan any, rc *simkit.RunCtx) {
 	var cases []faultCase
 	// The k-th mutating call is a fault point. With multi-megabyte content most of them are writes of one more chunk
 	// to the same temporary file; beyond 60 points all calls other than writes are kept together with the first,
-	// the last and evenly spaced writes (40 of them), otherwise a single case costs minutes.
+	// the last and evenly spaced writes (24 of them), otherwise a single case costs minutes.
 	var points []int
 	{
 		var writeIdx []int
@@ -341,14 +341,14 @@ func (H) Execute(prop string, plan any, rc *simkit.RunCtx) {
 			}
 			k++
 		}
-		if nmut <= 60 || len(writeIdx) <= 40 {
+		if nmut <= 60 || len(writeIdx) <= 24 {
 			points = points[:0]
 			for k := 0; k < nmut; k++ {
 				points = append(points, k)
 			}
 		} else {
-			for j := 0; j < 40; j++ {
-				points = append(points, writeIdx[j*(len(writeIdx)-1)/39])
+			for j := 0; j < 24; j++ {
+				points = append(points, writeIdx[j*(len(writeIdx)-1)/23])
 			}
 			sort.Ints(points)
 			rc.Probe("fault-points-sampled")
